@@ -120,8 +120,86 @@ func runC16b(t *testing.T, run *mc.Run) int {
 			}
 		}
 	}
+	// the loop itself stalls across a cleanup instant (the consumer of the events output stops reading while the
+	// held events of ANOTHER session are being flushed), resumes, and the second half arrives before the next
+	// cleanup instant but more than two minutes after the first: the pending half must be gone all the same
+	for _, first := range []string{"login", "session"} {
+		for _, stall := range []time.Duration{72 * time.Second, 200 * time.Second} {
+			n++
+			dropped++
+			var msg string
+			bubble(t, func() {
+				r := startRead(0)
+				defer r.stop()
+				vsleep(50 * time.Second)
+				lg := mkLogin(bindPID, "1")
+				sessLines := []string{
+					bindLines("7"),
+					auditgen.Simple("USER_START", 1700000021, 3001, "7", "4242", "success").Recs[0].Line,
+					auditgen.Simple("USER_ACCT", 1700000022, 3002, "7", "4242", "success").Recs[0].Line,
+				}
+				if first == "login" {
+					r.offerLogin(lg)
+				} else {
+					for _, l := range sessLines {
+						r.offerLine(l + "\n")
+					}
+				}
+				t0 := time.Now()
+				vsleep(5 * time.Second)
+				// another session, held, whose login now arrives: its flush blocks in the output
+				for i, typ := range []string{"LOGIN", "USER_START", "USER_ACCT"} {
+					res := "success"
+					if typ == "LOGIN" {
+						res = "1"
+					}
+					r.offerLine(auditgen.Simple(typ, 1700000030+int64(i), 3050+i, "8", "4343", res).Recs[0].Line + "\n")
+				}
+				vsleep(3 * time.Second)
+				gate := make(chan error)
+				r.w.gate = gate
+				go r.offerLogin(mkLogin(4343, "2"))
+				vsleep(stall) // nobody reads the events output: the loop is stuck in its write, across >= 1 cleanup instant
+				gate <- nil
+				vsleep(time.Second)
+				// the second half, 126 s (or more) after the first
+				if rest := 126*time.Second - time.Since(t0); rest > 0 {
+					vsleep(rest)
+				}
+				gap := time.Since(t0)
+				if first == "login" {
+					for _, l := range sessLines {
+						r.offerLine(l + "\n")
+					}
+				} else {
+					lg.Source.LoggedAt = time.Now()
+					r.offerLogin(lg)
+				}
+				r.offerLine(auditgen.Simple("USER_END", 1700000023, 3003, "7", "4242", "success").Recs[0].Line + "\n")
+				r.offerLine(auditgen.Simple("CRED_DISP", 1700000024, 3004, "7", "4242", "success").Recs[0].Line + "\n")
+				vsleep(200 * time.Second)
+				evs, _ := r.w.events()
+				if r.returned {
+					msg = fmt.Sprintf("the processor stopped: %v", r.ret)
+					return
+				}
+				late := 0
+				for _, e := range evs {
+					if e.Metadata.AuditID == "7" {
+						late++
+					}
+				}
+				if late != 0 {
+					msg = fmt.Sprintf("the processor loop was stalled for %v across a cleanup instant; halves %v apart: %d events of the session were emitted; more than two minutes apart nothing may be (held events are dropped, not emitted late)", stall, gap.Round(time.Second), late)
+				}
+			})
+			if msg != "" {
+				run.Violation(fmt.Sprintf("C16:wiring:%s-first:loop-stalled-across-a-cleanup-instant", first), map[string]any{"first": first, "stall_s": stall.Seconds()}, msg)
+			}
+		}
+	}
 	cov := mc.Coverage{Level: "model_checking", States: n, Transitions: n * 8, Traces: n, Evaluations: n, Distinct: dropped, Exhaustive: true, Samples: samples,
-		Rule:  "the real Auditd.Read under testing/synctest's virtual clock: first half in {login, LOGIN record + 2 events, the same session producing a further event every 20 s, login / session with unrelated logins arriving every 20 s meanwhile} x phase of its arrival within the cleanup period x gap to the second half, then two probe events; gap < 60 s must correlate (5 events), gap > 120 s must emit nothing ever; 60..120 s unjudged. distinct_nontrivial = cells in which the pending half must have been discarded",
+		Rule:  "the real Auditd.Read under testing/synctest's virtual clock: first half in {login, LOGIN record + 2 events, the same session producing a further event every 20 s, login / session with unrelated logins arriving every 20 s meanwhile} x phase of its arrival within the cleanup period x gap to the second half, then two probe events; gap < 60 s must correlate (5 events), gap > 120 s must emit nothing ever; 60..120 s unjudged; plus 4 cells in which the loop itself is stalled (its write to the events output blocks while another session is flushed) for 72 s / 200 s across a cleanup instant and the second half arrives >= 126 s after the first. distinct_nontrivial = cells in which the pending half must have been discarded",
 		Extra: map[string]any{"phases_s": len(phases), "gaps": len(gaps)}}
 	cov.Assumptions = []string{"virtual clock of testing/synctest"}
 	return run.Finish(cov)
